@@ -182,9 +182,59 @@ def cache_off_fuse(x, groups, mode):
         ac._fuseinfo_cache_maxsize = old
 
 
+def depth2_case(rng, fermi, with_conj=True, dagger=False):
+    """fuse, fuse again (a group containing the already fused axis), optionally conjugate, then unfuse
+    both levels.  Returns a stream item; the direct oracle: every intermediate is valid, and (abelian)
+    conjugating after the two fuses equals conjugating before them."""
+    sym = rng.choice(gen.SYMS)
+    static = rng.random() < 0.6
+    dtype = rng.choice(["float64", "complex128"])
+    x = gen.rand_array(rng, sym, ndim=rng.randint(3, 4), fermi=fermi, static=static, dtype=dtype,
+                       keep=rng.choice([0.5, 1.0]), pending=fermi and rng.random() < 0.4, max_charges=2, max_size=2)
+    nd = x.ndim
+    g1 = rng.sample(range(nd), 2)
+    pos1 = min(g1)
+    rest = [a for a in range(nd) if a not in g1]
+    # axes of the once-fused array: before, fused (at pos1), after
+    nd1 = nd - 1
+    other = rng.choice([a for a in range(nd1) if a != pos1])
+    g2 = [pos1, other] if rng.random() < 0.5 else [other, pos1]
+    steps = [{"out": ["f1"], "op": "fuse", "in": ["x"], "params": {"groups": [g1]} if fermi else {"groups": [g1], "mode": rng.choice(["insert", "concat"])}},
+             {"out": ["f2"], "op": "fuse", "in": ["f1"], "params": {"groups": [g2]} if fermi else {"groups": [g2], "mode": rng.choice(["insert", "concat"])}}]
+    last = "f2"
+    if with_conj:
+        steps.append({"out": ["c"], "op": "dagger" if dagger else "conj", "in": ["f2"], "params": {}})
+        last = "c"
+    steps += [{"out": ["u1"], "op": "unfuse_all", "in": [last], "params": {}},
+              {"out": ["u2"], "op": "unfuse_all", "in": ["u1"], "params": {}}]
+    env = {"x": x}
+    res, env2 = impl.run_prog(env, steps)
+    orc = None
+    if not all("ok" in r for r in res):
+        orc = "depth-2 fuse/conj/unfuse raised: " + str([r.get("msg") for r in res if "raise" in r][:1])
+    else:
+        for st in steps:
+            v = oracle.py_valid(env2[st["out"][0]])
+            if v:
+                orc = f"{st['op']} returned an invalid array after fusing twice: {v}"
+                break
+        if orc is None and not fermi and with_conj and not dagger:
+            try:
+                ref = x.conj().fuse(tuple(g1)).fuse(tuple(g2)).unfuse_all().unfuse_all()
+                if not same_value(env2["u2"], ref):
+                    orc = "conjugating a twice-fused array and unfusing both levels differs from conjugating first"
+            except Exception as e:  # noqa
+                orc = f"reference route raised {type(e).__name__}: {e}"
+    meta = dict(sym=sym, fermi=fermi, static=static, kind="depth2", conj=with_conj, dagger=dagger)
+    return dict(case=_mk_case(env, steps), impl=stream.strip_py(res), oracle=orc, meta=meta,
+                nontrivial=True, op="fuse", triggers=[]), env2, steps
+
+
 def gen_cases(seed, chunk, n, tier):
     rng = random.Random(seed * 7919 + chunk * 104729 + 5)
     out = []
+    for _ in range(max(1, n // 10)):
+        out.append(depth2_case(rng, fermi=rng.random() < 0.4, with_conj=rng.random() < 0.7)[0])
     ntw = max(1, n // 6)
     for _ in range(ntw):
         # fuse cache on/off over near-identical arrays of different symmetry, in random order
@@ -214,6 +264,21 @@ def gen_cases(seed, chunk, n, tier):
             orc = address_map_check(x, env2[st["out"][0]], groups)
             if orc:
                 break
+        if orc is None and tw["U1"].blocks:
+            # history: an array, then its conjugate (same tables up to direction, same sectors)
+            xu = tw["U1"]
+            try:
+                gl = [tuple(g) for g in groups]
+                xu.fuse(*gl, mode=mode)
+                xc = xu.conj()
+                got = xc.fuse(*gl, mode=mode)
+                ref = cache_off_fuse(xc, gl, mode)
+                if not same_value(got, ref):
+                    orc = "fuse(x.conj()) after fuse(x) differs from the result with the cache disabled"
+                else:
+                    orc = address_map_check(xc, got, groups)
+            except Exception as e:  # noqa
+                orc = f"fuse of a conjugate after its original raised {type(e).__name__}: {e}"
         same = len({tuple(tw[s].blocks) for s in tw}) < len(tw)
         out.append(dict(case=_mk_case(env, steps), impl=stream.strip_py(res), oracle=orc,
                         meta=dict(sym="twins", fermi=False, mode=mode, ngroups=len(groups), same_sectors=same),
